@@ -113,7 +113,7 @@ StripEmpty(x) ==
 (***************************************************************************)
 (* RFC 6902 JSON-patch over tokenised pointers.  An op is a record         *)
 (* [op, path (sequence of string tokens; list indices as decimal strings   *)
-(* or "-"), value].  Result: [ok |-> BOOLEAN, doc |-> JV].                 *)
+(* or "-"), value, from (for move/copy)].  Result: [ok, doc].              *)
 (***************************************************************************)
 Digits == {"0", "1", "2", "3", "4", "5", "6", "7", "8", "9"}
 RECURSIVE StrToNat(_, _)
@@ -179,6 +179,10 @@ ApplyOp(doc, op) ==
                             ELSE LET r == PRemove(doc, op.path) IN IF r.ok THEN PAdd(r.doc, op.path, op.value) ELSE Fail
     [] op.op = "remove"  -> PRemove(doc, op.path)
     [] op.op = "test"    -> LET v == PGet(doc, op.path) IN IF ~IsAbsent(v) /\ JEq(v, op.value) THEN Ok(doc) ELSE Fail
+    [] op.op = "move"    -> LET v == PGet(doc, op.from) IN
+                            IF IsAbsent(v) THEN Fail
+                            ELSE LET r == PRemove(doc, op.from) IN IF r.ok THEN PAdd(r.doc, op.path, v) ELSE Fail
+    [] op.op = "copy"    -> LET v == PGet(doc, op.from) IN IF IsAbsent(v) THEN Fail ELSE PAdd(doc, op.path, v)
     [] OTHER -> Fail
 
 RECURSIVE ApplyJsonPatch(_, _)
